@@ -7,6 +7,7 @@ mod semver;
 mod ranges;
 mod terms;
 mod offline;
+mod serde_dom;
 mod solver;
 mod solver_replay;
 
@@ -62,6 +63,7 @@ fn main() {
                 "ranges" | "rangeord" | "rangeq" => ranges::eval(&sx),
                 "terms" | "bitset" => terms::eval(&sx),
                 "offline" => offline::eval(&sx),
+                "serde" => serde_dom::eval(&sx),
                 "solver" | "faults" => solver::eval(&sx),
                 _ => panic!("unknown domain"),
             };
@@ -77,6 +79,7 @@ fn main() {
             "ranges" | "rangeord" | "rangeq" => ranges::generate(&mut out, &mut rng, thorough, domain),
             "terms" | "bitset" => terms::generate(&mut out, &mut rng, thorough, domain),
             "offline" => offline::generate(&mut out, &mut rng, thorough),
+            "serde" => serde_dom::generate(&mut out, &mut rng, thorough),
             "solver" | "faults" => solver::generate(&mut out, &mut rng, thorough, domain),
             _ => panic!("unknown domain"),
         }
